@@ -35,7 +35,17 @@ Part 3 (ops `y…`, Model/EngineConflict.lean + Model/EngineMore.lean): the real
 `handle_cloud_file_not_found_error` with a REAL parent entry in the index, `check_disjoint_create` / `_get_untrashed_peers` and
 `get_folder_file_conflict` with lists of REAL peer entries, and the other-entry loops of `mkdir_synced`.
 
-`check_engine_tables(res, tier, seed)` runs the three ties and returns (n_cases, disagreements); C01-C04 call `attach`.
+Part 4 (ops `z…`, Model/EngineRefresh.lean): the REFRESH.  In these ops `SyncEntry.get_latest` / `unconditionally_get_latest` are the
+REAL methods, traced (entry, call site, `sides`, `force`, the sides actually re-read); entries carry numeric change stamps and
+`_last_gotten` marks; the provider's answer about an id is scripted per (entry, side).  `zdec` = the trigger alone (exhaustive over
+small stamps), `zgl` = a direct call, `zat` = the call sites (`pre_sync`, `handle_split_conflict`, `lookup_creation`, the fill-in loop
+of `SyncState.change`), `zren` = the whole `handle_rename` with a REAL entry at the rename target.  On top, engine level
+(`check_refresh_histories`, run from C02's `attach` and the selftest): rename-over histories (delete b; rename a -> b) with a concurrent
+edit of the target on the other side and a sync step between the two intakes, on all 8 flavours — every traced `get_latest` call is
+compared with the model (`zsite`: scope of the call site, `zdec`: which sides are re-read and the new marks), and a user-written
+content that no user removed must survive; a lost edit is reported with the concrete run (`--history '<spec>'` re-runs it).
+
+`check_engine_tables(res, tier, seed)` runs the four ties and returns (n_cases, disagreements); C01-C04 call `attach`.
 """
 import atexit
 import collections
@@ -66,7 +76,11 @@ ENG_FP = {"cloudsync/sync/manager.py": ["SyncManager._sync_one_entry", "SyncMana
           "cloudsync/sync/state.py": ["SideState.needs_sync", "SideState.__setattr__", "SideState.clear", "SideState.uncorrupt", "SideState.set_force_sync", "SideState.clean_temp",
                                       "SyncEntry.hash_conflict", "SyncEntry.is_creation", "SyncEntry.is_deletion", "SyncEntry.is_rename",
                                       "SyncEntry.is_path_change", "SyncEntry.ignore", "SyncEntry.punt", "SyncState.updated", "SyncState.finished",
-                                      "SyncState.split", "SyncState.update_entry", "SyncState.mark_changed"]}
+                                      "SyncState.split", "SyncState.update_entry", "SyncState.mark_changed",
+                                      # part 4: the refresh
+                                      "SyncEntry.get_latest", "SyncEntry.mark_dirty", "SyncEntry.is_latest_side", "SyncState.unconditionally_get_latest",
+                                      "SyncState.unconditionally_get_no_info", "SyncState.lookup_creation", "SyncState.change", "SyncState.lookup_path",
+                                      "SyncState._change_path"]}
 
 # ---------------------------------------------------------------------------------------------------------------
 # the abstract feature space
@@ -159,12 +173,16 @@ def enc_case(c):
         return enc_xcase(c)
     if c["op"].startswith("y"):
         return enc_ycase(c)
+    if c["op"].startswith("z"):
+        return enc_zcase(c)
     return "%s %s %s %s %s %s %d %s %d" % (c["op"], c["side"], enc_side(c["l"]), enc_side(c["r"]), c["ord"], c["ign"], c["prio"],
                                             enc_oracle(c["o"]), c["pc"])
 
 
 def dec_case(line):
     """inverse of enc_case (for replaying a reported disagreement: `--case "<line>"`)"""
+    if line.startswith("z"):
+        return dec_zcase(line)
     op, side, l, r, ord_, ign, prio, orc, pc = line.split()
 
     def side_of(t):
@@ -175,6 +193,11 @@ def dec_case(line):
 
 def describe_case(c):
     """the abstract entry in words (for replays / mutation reports)"""
+    if c["op"].startswith("z"):
+        return {"method": c["op"] + (":" + c["site"] if "site" in c else ""), "changed_side": c.get("side", "-"), "LOCAL": "-", "REMOTE": "-",
+                "ignored": "-", "priority": 0, "line": enc_zcase(c), "case": {k: v for k, v in c.items() if k != "op"},
+                "legend": "entry = <LOCAL> <REMOTE> <ignored> <priority*10> <changed L> <changed R> <_last_gotten L> <_last_gotten R>; probe = a (id gone) "
+                          "| <hash s|e|o><path s|e|o><otype>: same / the synced value / another value; calls = target:site:sides+force:re-read sides"}
     if c["op"].startswith("y"):
         return {"method": c["op"], "changed_side": c.get("side", "-"), "LOCAL": "-", "REMOTE": "-", "ignored": c.get("ign", "-"),
                 "priority": c.get("prio", 0) / 10.0, "line": enc_ycase(c), "case": {k: v for k, v in c.items() if k != "op"}}
@@ -258,6 +281,8 @@ class Rig:
             return rig._old_punt(self_)
 
         def get_latest(self_, force=False, sides=(0, 1)):
+            if rig.x is not None and getattr(rig.x, "real_get_latest", False):
+                return rig.x.traced_get_latest(self_, force, sides, sys._getframe(1))        # part 4: the REAL method, traced
             if self_ is rig.ent:
                 rig.fx.append("glf" if force else "gl")
         st.SyncEntry.punt = punt
@@ -341,6 +366,11 @@ class Rig:
                 if rig.rev_active and rig.o["revOther" + "LR"[side]] == "T":
                     return rig.other
                 return super().lookup_oid(side, oid)
+
+            def unconditionally_get_latest(self_, ent, side):
+                if rig.x is not None and getattr(rig.x, "real_get_latest", False):
+                    rig.x.reread.append(side)
+                return super().unconditionally_get_latest(ent, side)
 
             def get_kids(self_, parent_path, side):
                 if rig.ctx == "delete":
@@ -530,6 +560,7 @@ class Rig:
         self.other = Other()
         self.xrig = None
         self.yrig = None
+        self.zrig = None
         self.last_split = None
 
     def close(self):
@@ -538,6 +569,8 @@ class Rig:
             self.xrig.close()
         if self.yrig is not None:
             self.yrig.close()
+        if self.zrig is not None:
+            self.zrig.close()
         st.SyncEntry.punt = self._old_punt
         st.SyncEntry.get_latest = self._old_get_latest
         st.time = self._old_time
@@ -692,6 +725,10 @@ class Rig:
             if self.yrig is None:
                 self.yrig = YRig(self)
             return self.yrig.run(case)
+        if case["op"].startswith("z"):
+            if self.zrig is None:
+                self.zrig = ZRig(self)
+            return self.zrig.run(case)
         mg, ex = self.mg, self.ex
         ent = self.realise(case)
         op = case["op"]
@@ -1792,6 +1829,367 @@ OPS = [("preds", 3), ("finished", 1), ("split", 1), ("corrupt", 1), ("missing", 
        ("hpcc", 5), ("embrace", 8), ("sync", 8), ("presync", 2), ("syncone", 4)]
 
 
+# ---------------------------------------------------------------------------------------------------------------
+# part 4: REFRESH SCOPES (Model/EngineRefresh.lean, ops `z…`).  In these ops `SyncEntry.get_latest` is the REAL method, traced:
+# which entry, from which call site, the `sides` and `force` it was given, and which sides `unconditionally_get_latest` re-read
+# (the decision `max(changed over sides) > _last_gotten`).  Entries carry numeric change stamps and `_last_gotten` marks; what the
+# providers answer about an id is scripted per (entry, side) as a probe (gone / same / the synced value / another value).
+
+Z_STAMPS = [0, 0, 3, 5, 7, 9]
+
+
+def enc_re(e):
+    return "%s %s %s %d %d %d %d %d" % (enc_side(e["l"]), enc_side(e["r"]), e["ign"], e["prio"], e["ch"][0], e["ch"][1], e["lg"][0], e["lg"][1])
+
+
+def enc_zcase(c):
+    op = c["op"]
+    B = lambda b: "T" if b else "F"
+    pid = B(c["pid"][0]) + B(c["pid"][1]) if "pid" in c else ""
+    if op == "zdec":
+        return "zdec %d %d %d %d %s %s" % (c["ch"][0], c["ch"][1], c["lg"][0], c["lg"][1], c["scope"], B(c["force"]))
+    if op == "zgl":
+        return "zgl %s 1000 %s %s %s %s %s" % (enc_re(c["e"]), c["scope"], B(c["force"]), c["probes"][0], c["probes"][1], pid)
+    if op == "zat":
+        return "zat %s %s %s 1000 %s %s %s" % (c["site"], c["sd"], enc_re(c["e"]), c["probes"][0], c["probes"][1], pid)
+    if op == "zren":
+        return "zren %s %s %s 1000 %s %d %s %s %s %s %s" % (c["side"], enc_re(c["e"]), "-" if c["cf"] is None else enc_re(c["cf"]),
+                                                           enc_oracle(c["o"]), c["pc"], c["probes"][0], c["probes"][1],
+                                                           c["cprobes"][0], c["cprobes"][1], pid)
+    raise HarnessError("unknown z op " + op)
+
+
+def dec_zcase(line):
+    """inverse of enc_zcase (`--case "<line>"`)"""
+    t = line.split()
+    side_of = lambda x: {"oid": x[0], "p": x[1], "h": x[2], "exs": x[3:5], "ot": x[5], "ch": x[6], "fs": x[7]}
+    B = lambda x: x == "T"
+
+    def re_of(w):
+        return {"l": side_of(w[0]), "r": side_of(w[1]), "ign": w[2], "prio": int(w[3]), "ch": (int(w[4]), int(w[5])), "lg": (int(w[6]), int(w[7]))}
+    op = t[0]
+    if op == "zdec":
+        return {"op": op, "ch": (int(t[1]), int(t[2])), "lg": (int(t[3]), int(t[4])), "scope": t[5], "force": B(t[6])}
+    if op == "zgl":
+        return {"op": op, "e": re_of(t[1:9]), "scope": t[10], "force": B(t[11]), "probes": (t[12], t[13]), "pid": (B(t[14][0]), B(t[14][1]))}
+    if op == "zat":
+        return {"op": op, "site": t[1], "sd": t[2], "e": re_of(t[3:11]), "probes": (t[12], t[13]), "pid": (B(t[14][0]), B(t[14][1]))}
+    if op == "zren":
+        rest = t[10:]
+        cf = None
+        if rest[0] == "-":
+            rest = rest[1:]
+        else:
+            cf, rest = re_of(rest[:8]), rest[8:]
+        return {"op": op, "side": t[1], "e": re_of(t[2:10]), "cf": cf, "o": {k: v for k, v in zip(ORACLE_NAMES, rest[1])}, "pc": int(rest[2]),
+                "probes": (rest[3], rest[4]), "cprobes": (rest[5], rest[6]), "pid": (B(rest[7][0]), B(rest[7][1]))}
+    raise HarnessError("unknown z op " + op)
+
+
+class ZRig:
+    real_get_latest = True
+
+    def __init__(self, rig):
+        self.rig = rig
+        self.calls = []
+        self.reread = []
+        self.ents = {}
+        self.fresh = 0
+
+    def close(self):
+        pass
+
+    # -- the trace ----------------------------------------------------------------------------------------------------------
+    def traced_get_latest(self, ent, force, sides, frame):
+        rig = self.rig
+        who = frame.f_code.co_name
+        target = "self" if ent is rig.ent else "conflict"
+        if who == "pre_sync":
+            site = "preSync"
+        elif who == "handle_rename":
+            site = "renameConflict" if target == "conflict" else ("renameFixFnf" if rig.fix_calls else "renameRetry")
+        elif who == "handle_split_conflict":
+            site = "splitDefer" + "LR"[frame.f_locals["defer_side"]]
+        elif who == "lookup_creation":
+            site = "lookupCreation"
+        elif who == "change":
+            site = "changeFill" + "LR"[frame.f_locals["side"]]
+        else:
+            site = "direct"
+        if ent is rig.ent:
+            rig.fx.append("glf" if force else "gl")
+        self.reread = []
+        rig._old_get_latest(ent, force=force, sides=sides)
+        self.calls.append("%s:%s:%s%s:%s" % (target, site, "".join("LR"[s] for s in sides), "T" if force else "F",
+                                             "".join("LR"[s] for s in self.reread) or "-"))
+
+    # -- scripted provider ----------------------------------------------------------------------------------------------------
+    def info_oid(self, side, oid):
+        rig = self.rig
+        hit = self.ents.get((side, oid))
+        if hit is None:
+            return None
+        ent, probe = hit
+        if probe == "a":
+            return None
+        ss = ent[side]
+        ha, pa, ot = probe
+        if ha == "o":
+            self.fresh += 1
+            h = b"hZ%d" % self.fresh
+        elif ha == "e" and ss._sync_hash is not None and ss._hash != ss._sync_hash:
+            h = ss._sync_hash
+        else:
+            h = ss._hash
+        if pa == "o":
+            self.fresh += 1
+            p = "%s/z%d" % (rig.roots[side], self.fresh)
+        elif pa == "e" and ss._sync_path is not None and not rig.provs[side].paths_match(ss._sync_path, ss._path, for_display=True):
+            p = ss._sync_path
+        else:
+            p = ss._path
+        return rig.OInfo(otype=rig.OT[ot], oid=oid, hash=h, path=p)
+
+    def info_path(self, side, path):
+        return None
+
+    # -- entries ------------------------------------------------------------------------------------------------------------
+    def stamp(self, ent, e, probes, track=True):
+        for sd in (0, 1):
+            ent[sd]._changed = float(e["ch"][sd]) if e["ch"][sd] else None
+            ent[sd]._last_gotten = float(e["lg"][sd])
+            if track and ent[sd]._oid is not None:
+                self.ents[(sd, ent[sd]._oid)] = (ent, probes[sd])
+        if ent[0]._changed or ent[1]._changed:
+            self.rig.state._changeset_storage.add(ent)
+        else:
+            self.rig.state._changeset_storage.discard(ent)
+
+    def as_case(self, e, op, side="L", o=None, pc=0):
+        e = dict(e)
+        for k in "lr":
+            e[k] = dict(e[k], ch="T" if e["ch"]["lr".index(k)] else "F")
+        return {"op": op, "side": side, "l": e["l"], "r": e["r"], "ord": "T", "ign": e["ign"], "prio": e["prio"], "o": o or dict(QUIET),
+                "pc": pc}
+
+    def build_conflict(self, e, synced):
+        """the entry at the rename target: ids oidX (synced side: what the scripted `delete` recognises) / oidC"""
+        rig = self.rig
+        st = rig.st
+        state = rig.state
+        ent = st.SyncEntry(state, rig.OT[e["l"]["ot"]])
+        for sd, key in ((0, "l"), (1, "r")):
+            x = e[key]
+            ss = ent[sd]
+            root = rig.roots[sd]
+            ss._otype = rig.OT[x["ot"]]
+            ss._oid = ("oidX" if sd == synced else "oidC") if x["oid"] == "T" else None
+            p = x["p"]
+            ss._path = root + "/t" if p in "ced" else None
+            ss._sync_path = {"n": None, "c": None, "s": root + "/u", "e": root + "/t", "d": root + "/u"}[p]
+            h = x["h"]
+            ss._hash = b"g1" if h in "ced" else None
+            ss._sync_hash = {"n": None, "c": None, "s": b"g0", "e": b"g1", "d": b"g0"}[h]
+            ss._exists = rig.EX[x["exs"][0]]
+            ss._saved_exists = None if x["exs"][1] == "-" else rig.EX[x["exs"][1]]
+            ss._force_sync = x["fs"] == "T"
+            if ss._oid is not None:
+                state._oids[sd][ss._oid] = ent
+                if ss._path is not None:
+                    state._paths[sd].setdefault(ss._path, {})[ss._oid] = ent
+        ent._priority = e["prio"] / 10.0
+        ent._ignored = rig.IGN[e["ign"]]
+        return ent
+
+    def abstract_re(self, ent):
+        a = self.rig.abstract(ent).split(" ")
+        n = lambda v: int(v or 0)
+        return "%s %s %s %s %d %d %d %d" % (a[0], a[1], a[3], a[4], n(ent[0]._changed), n(ent[1]._changed), n(ent[0]._last_gotten),
+                                            n(ent[1]._last_gotten))
+
+    # -- ops ----------------------------------------------------------------------------------------------------------------
+    def run(self, case):
+        rig = self.rig
+        rig.x = self
+        self.calls, self.reread, self.ents, self.fresh = [], [], {}, 0
+        old = [p.oid_is_path for p in rig.provs]
+        try:
+            for p, v in zip(rig.provs, case.get("pid", (False, False))):
+                p.oid_is_path = v
+            return getattr(self, "op_" + case["op"])(case)
+        finally:
+            for p, v in zip(rig.provs, old):
+                p.oid_is_path = v
+            rig.x = None
+            rig.ctx = None
+            for name in ("check_revivify", "resolve_conflict"):
+                rig.mgr.__dict__.pop(name, None)
+
+    def calls_str(self):
+        return ",".join(self.calls) if self.calls else "-"
+
+    def op_zdec(self, c):
+        blank = _S(W_BLANK)
+        e = {"l": blank, "r": blank, "ign": "n", "prio": 0, "ch": c["ch"], "lg": c["lg"]}
+        ent = self.rig.realise(self.as_case(e, "zdec"))
+        self.stamp(ent, e, ("a", "a"))
+        ent.get_latest(force=c["force"], sides=tuple("LR".index(x) for x in c["scope"]))
+        return "%s | %d %d" % (self.calls[0].split(":")[3], int(ent[0]._last_gotten), int(ent[1]._last_gotten))
+
+    def op_zgl(self, c):
+        ent = self.rig.realise(self.as_case(c["e"], "zgl"))
+        self.stamp(ent, c["e"], c["probes"])
+        ent.get_latest(force=c["force"], sides=tuple("LR".index(x) for x in c["scope"]))
+        return "%s | %s %d" % (self.calls[0].split(":")[3], self.abstract_re(ent), int(self.rig.now))
+
+    def op_zat(self, c):
+        rig = self.rig
+        ent = rig.realise(self.as_case(c["e"], "zat", o=dict(QUIET, dl="f")))
+        self.stamp(ent, c["e"], c["probes"])
+        site = c["site"]
+        if site == "preSync":
+            rig.mgr.check_revivify = lambda sync: None
+            rig.mgr.pre_sync(ent)
+        elif site == "splitDefer":
+            d = "LR".index(c["sd"])
+            rig.mgr.resolve_conflict = lambda pair: None
+            other = self.build_conflict({"l": _S(W_NEW_FILE), "r": _S(W_NEW_FILE), "ign": "n", "prio": 0}, 1 - d)
+            rig.mgr.handle_split_conflict(ent, d, other, 1 - d)
+        elif site == "lookupCreation":
+            rig.state.lookup_creation(ent[0]._hash, 0)
+        elif site == "changeFill":
+            rig.state._changeset_storage.add(ent)
+            rig.state.change(0)
+        else:
+            raise HarnessError("unknown site " + site)
+        return "%s | %s" % (self.calls_str(), self.abstract_re(ent))
+
+    def op_zren(self, c):
+        rig = self.rig
+        mg = rig.mg
+        ch = "LR".index(c["side"])
+        s = 1 - ch
+        o = dict(c["o"], rcEnt="F" if c["cf"] is None else "T")
+        ent = rig.realise(self.as_case(c["e"], "zren", side=c["side"], o=o, pc=c["pc"]))
+        self.stamp(ent, c["e"], c["probes"])
+        cf = None
+        if c["cf"] is not None:
+            cf = self.build_conflict(c["cf"], s)
+            self.stamp(cf, c["cf"], c["cprobes"])
+            rig.other = cf
+        m = rig.mgr
+        code = lambda r: ("N" if r is None else {mg.FINISHED: "F", mg.PUNT: "P", mg.REQUEUE: "R"}.get(r, "?%r" % (r,)))
+        try:
+            out = code(m.handle_rename(ent, ch, s, m.translate(s, ent[ch].path)))
+        except AssertionError:
+            out = "!assertion"
+        except rig.ex.CloudTemporaryError:
+            out = "!temp"
+        except HarnessError:
+            raise
+        except Exception as e:  # noqa
+            out = "!other:" + type(e).__name__
+        return "%s | %s | %s | %s | %s" % (out, ",".join(rig.fx) if rig.fx else "-", self.calls_str(), self.abstract_re(ent),
+                                           "-" if cf is None else self.abstract_re(cf))
+
+
+def z_rand_probe(rng, absent=2):
+    if rng.randrange(10) < absent:
+        return "a"
+    return rng.choice("sssseo") + rng.choice("sssseo") + rng.choice("ffffdn")
+
+
+def z_rand_re(rng, quiet=False):
+    e = {"l": rand_side(rng), "r": rand_side(rng), "ign": rng.choice(W_IGN), "prio": rng.choice(W_PRIO)}
+    if quiet:                   # near a fully synced entry: the decision of manager.py 1314 hangs on what the refresh finds
+        for k in "lr":
+            e[k] = dict(e[k], oid="T", p=rng.choice("eeeed"), h=rng.choice("eeeeed"), exs=rng.choice(["e-"] * 6 + ["t-", "u-"]),
+                        fs=rng.choice("FFFFFFFT"))
+        e["ign"] = rng.choice("nnnnnnd")
+    ch = [rng.choice(Z_STAMPS), rng.choice(Z_STAMPS)]
+    if ch[0] and ch[0] == ch[1]:
+        ch[1] += 1
+    lg = [rng.choice([0, 0] + Z_STAMPS + ch + [max(ch)] * 3), rng.choice([0, 0] + Z_STAMPS + ch + [max(ch)] * 3)]
+    e["ch"], e["lg"] = tuple(ch), tuple(lg)
+    for i, k in enumerate("lr"):
+        e[k] = dict(e[k], ch="T" if ch[i] else "F")
+    return e
+
+
+Z_SITES = [("preSync", "-"), ("splitDefer", "L"), ("splitDefer", "R"), ("lookupCreation", "-"), ("changeFill", "-")]
+
+
+def z_random_case(rng, op):
+    pid = (rng.random() < 0.4, rng.random() < 0.4)
+    if op == "zgl":
+        return {"op": "zgl", "e": z_rand_re(rng, quiet=rng.random() < 0.3), "scope": rng.choice(["LR", "LR", "LR", "L", "R", "RL"]),
+                "force": rng.random() < 0.25, "probes": (z_rand_probe(rng), z_rand_probe(rng)), "pid": pid}
+    if op == "zat":
+        site, sd = rng.choice(Z_SITES)
+        e = z_rand_re(rng, quiet=rng.random() < 0.3)
+        if site == "preSync" and e["ign"] in "di":             # is_discarded: pre_sync ends before the refresh
+            e["ign"] = "n"
+        if site == "lookupCreation":                          # get_all() lists neither discarded nor conflicted entries
+            e["l"] = dict(e["l"], oid="T", ot="f")
+            if e["ign"] in "dic":
+                e["ign"] = "n"
+        if site == "changeFill":
+            k = rng.choice("lr")
+            e[k] = dict(e[k], p=rng.choice("nns"), exs=rng.choice(["e-", "u-", "e-", "t-"]))
+        probes = [z_rand_probe(rng), z_rand_probe(rng)]
+        if site == "lookupCreation" and probes[0] != "a":
+            probes[0] = probes[0][:2] + "f"
+        return {"op": "zat", "site": site, "sd": sd, "e": e, "probes": tuple(probes), "pid": pid}
+    if op == "zren":
+        side = rng.choice("LR")
+        sy = "r" if side == "L" else "l"
+        ck = "l" if side == "L" else "r"
+        e = z_rand_re(rng)
+        # reach the provider's rename: a synced-side sync_path that differs from the translated path, a sync_hash or a folder
+        e[sy] = dict(e[sy], oid="T", p=rng.choice("eeds"), h=rng.choice("eeeds") if rng.random() < 0.9 else e[sy]["h"])
+        e[ck] = dict(e[ck], p=rng.choice("ddddce"))
+        e["prio"] = rng.choice([0, 0, 10, 10, 10, 20, 30, -10, 1, 11])
+        o = rand_oracle(rng)
+        o["trL" if side == "R" else "trR"] = rng.choice("gggggglpsn")
+        o["ren"] = rng.choice("eeeeeeeeeofnt")
+        o["nameConfl"] = "F"
+        cf = None
+        if rng.random() < 0.85:
+            cf = z_rand_re(rng, quiet=rng.random() < 0.8)
+            cf[sy] = dict(cf[sy], oid="T")
+            if rng.random() < 0.5:
+                cf[ck] = dict(cf[ck], oid=rng.choice("TTF"))
+        cp = [z_rand_probe(rng, absent=1), z_rand_probe(rng, absent=1)]
+        return {"op": "zren", "side": side, "e": e, "cf": cf, "o": o, "pc": 0, "probes": (z_rand_probe(rng), z_rand_probe(rng)),
+                "cprobes": tuple(cp), "pid": pid}
+    raise HarnessError(op)
+
+
+def z_decision_cases():
+    """the trigger of get_latest, exhaustively over stamps in {0,3,5,7}: 4^4 stamp tuples x 4 scopes x force"""
+    v = (0, 3, 5, 7)
+    for a, b, c_, d in itertools.product(v, v, v, v):
+        for scope in ("LR", "L", "R", "RL"):
+            for force in (False, True):
+                yield {"op": "zdec", "ch": (a, b), "lg": (c_, d), "scope": scope, "force": force}
+
+
+Z_OPS = [("zgl", 4), ("zat", 4), ("zren", 8)]
+
+
+def gen_zcases(tier, seed):
+    rng = rng_for(seed, "eng-refresh")
+    dec = list(z_decision_cases())
+    if tier == "quick":
+        rng.shuffle(dec)
+        dec = dec[:len(dec) // 4]
+    unit = 250 if tier == "quick" else 4000
+    cases = dec
+    for op, w in Z_OPS:
+        cases += [z_random_case(rng, op) for _ in range(unit * w)]
+    return cases
+
+
 def exhaustive_pred_cases(rng):
     """every value of one side (all fields) against a random other side: the footprint of needs_sync / is_creation / is_deletion / …"""
     for key in "lr":
@@ -1814,7 +2212,7 @@ def gen_cases(tier, seed):
         n = unit * w
         for i in range(n):
             cases.append(rand_case(rng, op, foc[i % len(foc)]))
-    return cases + gen_xcases(tier, seed) + gen_ycases(tier, seed)
+    return cases + gen_xcases(tier, seed) + gen_ycases(tier, seed) + gen_zcases(tier, seed)
 
 
 def run_cases(cases, rig=None):
@@ -1901,6 +2299,27 @@ WITNESSES = [
 ]
 
 
+def _zre(l, r, ign, prio, ch, lg):
+    return {"l": _S(l), "r": _S(r), "ign": ign, "prio": prio, "ch": ch, "lg": lg}
+
+
+def _zwit(target):
+    """LOCAL renamed a -> b (retry), REMOTE answers CloudFileExistsError, the REMOTE object at the target has been edited"""
+    return {"op": "zren", "side": "L", "e": _zre("Tdee-fTF", W_SYNCED, "n", 10, (5, 0), (5, 5)), "cf": target, "o": dict(QUIET, trR="g", ren="e"),
+            "pc": 0, "probes": ("ssf", "osf"), "cprobes": ("ssf", "osf"), "pid": (False, False)}
+
+
+WITNESSES += [
+    # part 4 (Props/Engine.lean section 15)
+    ("rename_over_deletes_unseen_edit_when_unstamped", _zwit(_zre(W_SYNCED, W_SYNCED, "n", 0, (0, 0), (0, 0))),
+     lambda out: out.split(" | ")[1:3] == ["rnR,doR", "conflict:renameConflict:LRF:-"]),
+    ("rename_over_deletes_edit_of_ignored_entry", _zwit(_zre("Teee-fTF", W_SYNCED, "c", 0, (7, 0), (3, 3))),
+     lambda out: out.split(" | ")[1:3] == ["rnR,doR", "conflict:renameConflict:LRF:LR"] and out.split(" | ")[4].split(" ")[1].startswith("Ted")),
+    ("restricted_conflict_refresh_is_blind", _zwit(_zre("Fnnt-fTF", W_SYNCED, "n", 0, (5, 0), (3, 3))),
+     lambda out: out.split(" | ")[1:3] == ["rnR,cfR,cfR", "conflict:renameConflict:LRF:LR"]),
+]
+
+
 def replay_witnesses():
     """-> [(name, reproduces on the real method, real output, model output)]"""
     cases = [c for _, c, _ in WITNESSES]
@@ -1967,6 +2386,196 @@ def replay_history_mkdir_none(flavour="oid-oid-ci"):
         w.close()
 
 
+# ---------------------------------------------------------------------------------------------------------------
+# part 4, engine level: RENAME-OVER histories on the REAL engine (harness/engine.py World) with every `SyncEntry.get_latest` call traced.
+# One side deletes b and renames a -> b; the other side edits b concurrently (before or after, never taken in first); a sync step runs
+# BETWEEN the intake of the two sides (partial-intake schedules).  Two checks per run:
+#   (1) every traced call is compared with the model: the (sides, force) of its call site against `Site.scope`, and the per-side
+#       decision to re-read + the new `_last_gotten` marks against `getLatest` on the same stamps (driver ops zsite / zdec);
+#   (2) the outcome: content a user wrote and no user removed must still exist on some side when the engine is quiet.
+
+def refresh_scheds(side):
+    me, ot = "LR"[side], "LR"[1 - side]
+    return [(me + "S", "S"), (me + "S", "SS"), (me + "SS", "S"), (me, "S"), (me + "S", ""), (me + "S", ot + "S"), (me + "S" + me, "S"),
+            ("S" + me + "S", ot)]
+
+
+def refresh_history_specs(tier, seed):
+    import_repo()
+    from engine import FLAVOURS
+    specs = []
+    for fl in FLAVOURS:
+        for side in (0, 1):
+            for order in ("after", "before"):
+                for i, sm in enumerate(refresh_scheds(side)):
+                    specs.append({"flavour": fl, "side": side, "order": order, "sched": sm, "i": i})
+    if tier == "quick":
+        # every (flavour, side) with the plain partial-intake schedule, the other schedules rotating with the seed
+        specs = [s for s in specs if (s["order"] == "after" and s["i"] == 0) or (s["i"] + (s["order"] == "before") * 3) % 8 == (seed + 1) % 8]
+    return specs
+
+
+def _site_of(frame, ent, force):
+    who = frame.f_code.co_name
+    if who == "pre_sync":
+        return "preSync", "-"
+    if who == "handle_rename":
+        if ent is not frame.f_locals.get("sync"):
+            return "renameConflict", "-"
+        return ("renameRetry" if ent.priority <= 0 else "renameFixFnf"), "-"
+    if who == "handle_split_conflict":
+        return "splitDefer", "LR"[frame.f_locals["defer_side"]]
+    if who == "lookup_creation":
+        return "lookupCreation", "-"
+    if who == "change":
+        return "changeFill", "LR"[frame.f_locals["side"]]
+    return "other:" + who, "-"
+
+
+class GetLatestTrace:
+    """class-level trace of the REAL SyncEntry.get_latest / SyncState.unconditionally_get_latest"""
+    def __init__(self):
+        import cloudsync.sync.state as st
+        self.st = st
+        self.calls = []
+        self.reread = None
+
+    def __enter__(self):
+        st = self.st
+        self.o_gl, self.o_un = st.SyncEntry.get_latest, st.SyncState.unconditionally_get_latest
+        tr = self
+
+        def get_latest(self_, force=False, sides=(0, 1)):
+            frame = sys._getframe(1)
+            site, sd = _site_of(frame, self_, force)
+            before = [(self_[s].changed or 0, self_[s]._last_gotten) for s in (0, 1)]
+            outer, tr.reread = tr.reread, []
+            try:
+                tr.o_gl(self_, force=force, sides=sides)
+            finally:
+                rr, tr.reread = tr.reread, outer
+            tr.calls.append({"site": site, "sd": sd, "sides": "".join("LR"[s] for s in sides), "force": bool(force), "before": before,
+                             "reread": "".join("LR"[s] for s in rr), "after": [self_[s]._last_gotten for s in (0, 1)],
+                             "entry": str(self_)})
+
+        def uncond(self_, ent, side):
+            if tr.reread is not None:
+                tr.reread.append(side)
+            return tr.o_un(self_, ent, side)
+        st.SyncEntry.get_latest = get_latest
+        st.SyncState.unconditionally_get_latest = uncond
+        return self
+
+    def __exit__(self, *a):
+        self.st.SyncEntry.get_latest, self.st.SyncState.unconditionally_get_latest = self.o_gl, self.o_un
+
+
+def run_refresh_history(spec, keep_trace=True):
+    """-> {"valid", "quiet", "alive", "L", "R", "ops", "engine_calls", "trace"}"""
+    import_repo()
+    from engine import World, tree_lines
+    side, o = spec["side"], 1 - spec["side"]
+    roots = ("/local", "/remote")
+    w = World(spec["flavour"])
+    ops = []
+
+    def user(sd, op, *args):
+        r = w.user(sd, op, *args)
+        ops.append("user %s %s %s%s" % ("LR"[sd], op, " ".join(a.decode() if isinstance(a, bytes) else a for a in args), "" if r is None else "  -> " + str(r)))
+        return r
+
+    def steps(xs):
+        for x in xs:
+            w.step(x)
+            ops.append("step " + x)
+    with GetLatestTrace() as tr:
+        try:
+            user(side, "create", roots[side] + "/a", b"content-a")
+            user(side, "create", roots[side] + "/b", b"old-b")
+            if w.run_to_quiet() is None:
+                return {"valid": False, "why": "base did not quiesce"}
+            ops.append("run to quiet")
+            n0 = len(w.calls)
+            tr.calls.clear()
+            if spec["order"] == "before":
+                wr = user(o, "write", roots[o] + "/b", b"EDIT")
+            user(side, "delete", roots[side] + "/b")
+            user(side, "rename", roots[side] + "/a", roots[side] + "/b")
+            steps(spec["sched"][0])
+            if spec["order"] == "after":
+                wr = user(o, "write", roots[o] + "/b", b"EDIT")
+            if wr is not None:
+                # the engine already removed the target: there is no concurrent edit in this run
+                return {"valid": False, "why": "target gone before the edit", "trace": list(tr.calls)}
+            steps(spec["sched"][1])
+            q = w.run_to_quiet(cap=400)
+            ops.append("run to quiet" + ("" if q is not None else " (cap hit)"))
+            tl, trr = w.tree(0), w.tree(1)
+            alive = any(v[1] == b"EDIT" for v in list(tl.values()) + list(trr.values()))
+            return {"valid": True, "quiet": q is not None, "alive": alive, "L": tree_lines(tl), "R": tree_lines(trr), "ops": ops,
+                    "engine_calls": [c.brief() for c in w.engine_calls(n0)], "trace": list(tr.calls)}
+        finally:
+            w.close()
+
+
+def trace_lines(calls):
+    """driver lines for the traced calls -> [(line, expected answer, call)]"""
+    out = []
+    for c in calls:
+        vals = sorted({v for pair in c["before"] for v in pair if v} | {v for v in c["after"] if v})
+        rank = {0: 0}
+        rank.update({v: i + 1 for i, v in enumerate(vals)})
+        r = lambda v: rank[v or 0]
+        (chl, lgl), (chr_, lgr) = c["before"]
+        out.append(("zdec %d %d %d %d %s %s" % (r(chl), r(chr_), r(lgl), r(lgr), c["sides"], "T" if c["force"] else "F"),
+                    "%s | %d %d" % (c["reread"] or "-", r(c["after"][0]), r(c["after"][1])), c))
+        if not c["site"].startswith("other:"):
+            out.append(("zsite %s %s" % (c["site"], c["sd"]), "%s %s" % (c["sides"], "T" if c["force"] else "F"), c))
+    return out
+
+
+def check_refresh_histories(tier="quick", seed=0, verbose=False):
+    """-> info dict: runs, valid, lost (concrete replays), trace disagreements"""
+    t0 = _time.time()
+    specs = refresh_history_specs(tier, seed)
+    lost, notquiet, lines, sites, valid = [], 0, [], collections.Counter(), 0
+    for spec in specs:
+        r = run_refresh_history(spec)
+        lines += trace_lines(r.get("trace", []))
+        for c in r.get("trace", []):
+            sites["%s:%s%s:%s" % (c["site"] + (c["sd"] if c["sd"] != "-" else ""), c["sides"], "T" if c["force"] else "F", c["reread"] or "-")] += 1
+        if not r["valid"]:
+            continue
+        valid += 1
+        if not r["quiet"]:
+            notquiet += 1
+        elif not r["alive"]:
+            lost.append({"history": "rename-over with a concurrent edit of the target", "spec": spec,
+                         "oracle": "the content EDIT written by a user and removed by no user exists on neither side at quiescence",
+                         "operations": r["ops"], "final_LOCAL": r["L"], "final_REMOTE": r["R"], "engine_calls": r["engine_calls"],
+                         "get_latest_trace": r["trace"],
+                         "rerun": "python harness/eng_decide.py --history '%s'" % json.dumps(spec)})
+    uniq = {}
+    for line, want, c in lines:
+        uniq.setdefault((line, want), c)
+    keys = list(uniq)
+    got = run_driver(LAYER, [k[0] for k in keys]) if keys else []
+    bad = [{"line": k[0], "real": k[1], "model": g, "call": uniq[k]} for k, g in zip(keys, got) if g != k[1]]
+    info = {"runs": len(specs), "valid_runs": valid, "not_quiet": notquiet, "lost_edits": len(lost), "traced_calls": len(lines),
+            "distinct_trace_checks": len(keys), "trace_disagreements": len(bad), "call_sites_seen": dict(sites.most_common(30)),
+            "wall_s": round(_time.time() - t0, 1)}
+    if verbose:
+        print("refresh histories: %d runs (%d with a concurrent edit), %d lost edits, %d not quiet; %d traced get_latest calls, %d distinct checks, "
+              "%d disagreements, %.1fs" % (len(specs), valid, len(lost), notquiet, len(lines), len(keys), len(bad), info["wall_s"]))
+        for k, v in sites.most_common(30):
+            print("    %6d  %s" % (v, k))
+        for b in bad[:5]:
+            print("  TRACE DISAGREEMENT %s\n      model: %s\n      real : %s\n      %s" % (b["line"], b["model"], b["real"], b["call"]["entry"]))
+        for l in lost[:3]:
+            print("  LOST EDIT %s\n      L=%s R=%s" % (l["spec"], l["final_LOCAL"], l["final_REMOTE"]))
+    return info, lost, bad
+
+
 def attach(res, tier, seed, proof_broken=None):
     """For the engine-level checks (C01-C04): call at the end of run().  Audits the ENG theorems, runs the decision-table tie
     and records both in the evidence (`coverage['engine_tables']`, counted into obligations/discharged/theorems).  A
@@ -1986,9 +2595,22 @@ def attach(res, tier, seed, proof_broken=None):
     res.assumptions.append("engine decision tables (Model/Engine.lean): abstraction of a sync entry to relations/flags; the transfer leaves "
                            "(download/upload/create/mkdir) and cross-entry look-ups are oracle inputs; tied to the real methods by differential "
                            "execution on %d sampled (entry, oracle, method) cases" % n)
-    if bad:
+    lost, tbad = [], []
+    if res.pid == "C02":
+        # part 4: rename-over histories on the real engine, every get_latest call traced against the model's refresh scopes;
+        # the outcome oracle (no user-written content vanishes) is C02's, so the concrete run is reported there
+        hinfo, lost, tbad = check_refresh_histories(tier, seed)
+        info["refresh_histories"] = hinfo
+        res.coverage["disagreements_checked"] += hinfo["distinct_trace_checks"]
+    if lost:
+        res.violation({"property": res.pid, "kind": "the engine destroyed content it had not seen: a rename-over history with a concurrent edit of the "
+                                                     "target loses the edit (ENG refresh-scope family)",
+                       "lost_edits": len(lost), "run": lost[0], "other_runs": [l["spec"] for l in lost[1:20]],
+                       "refresh_trace_disagreements": [{k: b[k] for k in ("line", "real", "model")} for b in tbad[:5]],
+                       "decision_table_disagreements": len(bad), "first": bad[:3]}, no_input=False)
+    elif bad or tbad:
         res.violation({"property": res.pid, "kind": "a real engine method differs from its Lean decision table (ENG tie)",
-                       "disagreements": len(bad), "first": bad[:5]}, no_input=True)
+                       "disagreements": len(bad) + len(tbad), "first": bad[:5], "refresh_trace": tbad[:5]}, no_input=True)
     elif aud["failures"]:
         res.violation({"property": res.pid, "kind": "ENG proof obligation no longer checks", "broken": aud["failures"]}, no_input=True)
     return n, bad
@@ -2001,12 +2623,17 @@ def selftest(argv):
     ap.add_argument("--tier", default="quick", choices=["quick", "thorough"])
     ap.add_argument("--no-audit", action="store_true")
     ap.add_argument("--case", default=None, help="replay one case line (as printed in a DISAGREEMENT / replay file)")
+    ap.add_argument("--history", default=None, help="re-run one refresh history (the JSON `spec` of a LOST EDIT replay)")
     args = ap.parse_args(argv)
     seed = seed_from_env()
     ok, log, secs = lean_build()
     if not ok:
         print("HARNESS-ERROR ENG: lake build failed\n" + log[-3000:])
         return 2
+    if args.history:
+        r = run_refresh_history(json.loads(args.history))
+        print(json.dumps(r, indent=1, default=str))
+        return 0 if (not r["valid"] or (r["quiet"] and r["alive"])) else 1
     if args.case:
         c = dec_case(args.case)
         real, model = run_cases([c])
@@ -2042,6 +2669,10 @@ def selftest(argv):
     shapes += [{"history": "moved-out+delete vs remote rename", "engine_deleted_renamed_file": d, "L": tl, "R": tr},
                {"history": "mkdir against an unknown remote file", "mkdir_returned_none": mn, "converged": conv}]
     res.coverage["shapes"] = shapes
+    hinfo, lost, tbad = check_refresh_histories(args.tier, seed, verbose=True)
+    info["refresh_histories"] = hinfo
+    bad = bad + [{"case": {"line": b["line"]}, "model": b["model"], "real": b["real"], "call": b["call"]} for b in tbad] + \
+        [{"case": {"line": "history " + json.dumps(l["spec"])}, "model": "the edit survives", "real": "the edit is lost", "run": l} for l in lost]
     res.coverage.update({"evaluations": n, "programs": n, "distinct_nontrivial": info["distinct_cases"],
                          "rule": "distinct (method, abstract entry, oracle) cases; every case runs a real method on a real SyncEntry",
                          "disagreements_checked": n, "samples": [describe_case(gen_cases("quick", seed)[-1])],
